@@ -54,8 +54,40 @@ func init() {
 }
 
 func replay(c *core.Ctx, raw json.RawMessage) error {
+	var k kase
+	json.Unmarshal(raw, &k)
+	if k.Clause == "generic-bypass" {
+		genericBypass(c, true)
+		return nil
+	}
 	run(c)
 	return nil
+}
+
+// genericBypass demonstrates at run time, without reflection, that a non-constant string can
+// be passed to constant-only parameters through a generic conversion helper (known finding
+// K27). In exploration mode it only counts.
+func genericBypass(c *core.Ctx, judge bool) {
+	names := make([]string, 0, len(reg.GenericBypass))
+	for n := range reg.GenericBypass {
+		names = append(names, n)
+	}
+	sort.Strings(names)
+	for i, n := range names {
+		c.Eval(1)
+		p := payload(1000 + i)
+		var out interface{}
+		if pn := core.Recover(func() { out = reg.GenericBypass[n](p) }); pn != nil {
+			continue
+		}
+		if st, ok := out.(fmt.Stringer); ok && strings.Contains(st.String(), p) {
+			c.Count("generic_bypass_works:"+n, 1)
+			if judge {
+				c.Violation(kase{Clause: "generic-bypass", Item: n}, "%s accepted the run-time string %q through `func Conv1[T ~string, R any](f func(T) R, s string) R { return f(T(s)) }`: a client program that passes a non-constant string to a constant-only parameter compiles (Go >= 1.18 type parameters)", n, p)
+				return
+			}
+		}
+	}
 }
 
 func loadSurface() surface {
@@ -536,6 +568,9 @@ func run(c *core.Ctx) {
 			e.probe(mname, m.Func, &recv)
 		}
 	}
+
+	// ---- generic conversion bypass (known finding K27): counted here, judged by the witness replay
+	genericBypass(c, c.Strict)
 
 	// ---- clause 4: ParseFS confinement
 	tfs := template.TrustedFSFromTrustedSource(template.TrustedSourceFromFlag(util.FlagValue(e.fsroot)))
